@@ -1,7 +1,7 @@
 (* Model/C14Held.v — holders of another element type B (integer / float32 value arrays of a sparse tensor, cores and factor matrices of a
-   Tucker tensor) converted entry by entry to the value ring V BEFORE any product: what the property demands of sptensor.nvecs /
-   ttensor.nvecs (open findings C14-F4 / C14-F5: the current code multiplies in B; fixes/C14-F4.diff, fixes/C14-F5.diff insert exactly
-   these conversions), and what tensor.nvecs does since /repo 08011d5 (t_double, Model/C14Unfold.v).  Definitions only. *)
+   Tucker tensor) converted entry by entry to the value ring V BEFORE any product: what sptensor.nvecs does since /repo 6aef7c8
+   (tnt.astype(float64); finding C14-F4 repaired) and ttensor.nvecs since /repo 4b7dc0e (float64 copies of core and factors; finding
+   C14-F5 repaired), and what tensor.nvecs does since /repo 08011d5 (t_double, Model/C14Unfold.v).  Definitions only. *)
 From Coq Require Import List.
 From PV Require Import Base.Index Np.Array Model.Sparse Model.Repr Model.C14Unfold.
 Import ListNotations.
